@@ -304,3 +304,41 @@ package graph
 //@     invariant range: -1 <= rangeindex
 //@     invariant same: forall i int :: {:pattern s[i]} 0 <= i && i < len(s) ==> s[i] == old(s[i])
 //@     invariant notYet: forall i int :: {:pattern s[i]} 0 <= i && i <= rangeindex ==> s[i] != kind
+
+// ---- StringKind: one value per name, whatever other goroutines do -----------------------------------------------
+//
+// Kind values are compared by identity (Kinds.Remove, ==), so StringKind must hand out ONE value per name. kindCache
+// is specified as an append-only view (dom, val) that other goroutines may extend at any moment: every sync.Map
+// operation is an atomic step whose contract allows arbitrary additions by others (grow) before it takes effect,
+// Load says nothing about an absent key (it may be added right after), and Store - which would replace whatever
+// another goroutine has stored meanwhile - is only allowed for a key known to be absent, which no caller can know.
+// StringKind is verified against that: the value it returns is the one the cache holds for the name afterwards, and
+// no existing entry is ever replaced.
+//@ import sync "sync"
+//@ ghost field sync.Map.dom set[string]
+//@ ghost field sync.Map.val seq[any]
+//@ extern func (m *sync.Map) LoadOrStore(key any, value any) (any, bool)
+//@   requires m != nil && typeof(key) == string
+//@   modifies m.dom, m.val
+//@   ensures grow: forall k string :: old(k in m.dom) ==> k in m.dom && m.val[k] == old(m.val[k])
+//@   ensures there: key.(string) in m.dom && m.val[key.(string)] == result.0
+//@   ensures mine: result.1 || result.0 == value
+//@ extern func (m *sync.Map) Load(key any) (any, bool)
+//@   requires m != nil && typeof(key) == string
+//@   modifies m.dom, m.val
+//@   ensures grow: forall k string :: old(k in m.dom) ==> k in m.dom && m.val[k] == old(m.val[k])
+//@   ensures found: result.1 ==> key.(string) in m.dom && m.val[key.(string)] == result.0
+//@ extern func (m *sync.Map) Store(key any, value any)
+//@   requires m != nil && typeof(key) == string
+//@   requires appendOnly: !(key.(string) in m.dom)
+//@   modifies m.dom, m.val
+//@   ensures grow: forall k string :: old(k in m.dom) ==> k in m.dom && m.val[k] == old(m.val[k])
+//@   ensures there: key.(string) in m.dom && m.val[key.(string)] == value
+
+//@ func StringKind(str string) Kind
+//@   requires kindCache != nil
+//@   nosafety
+//@   modifies kindCache.dom, kindCache.val
+//@   ensures canonical: str in kindCache.dom && result != nil
+//@   ensures same: kindCache.val[str] == result
+//@   ensures kept: forall k string :: old(k in kindCache.dom) ==> k in kindCache.dom && kindCache.val[k] == old(kindCache.val[k])
